@@ -13,7 +13,7 @@ RULE = ("Hypothesis-generated forms (broad/text profiles weighted towards labels
         "1-3 ${refs} in every position, leading/trailing/double spaces, table-list helper labels) converted with "
         "pretty_print False and True; non-trivial = accepted form whose output has >=1 mixed text+<output> element; "
         "distinct by SHA-1 of the case JSON")
-ASSUMPTIONS = ["both outputs are parsed by libxml2; whitespace-only text is ignored only in elements with element children and no non-blank text"]
+ASSUMPTIONS = ["both outputs are parsed by libxml2; whitespace-only text is ignored only in elements that have element children other than <output/> and no non-blank text"]
 BUDGET = {"quick": 12000, "thorough": 400000}
 
 
@@ -22,7 +22,7 @@ def _cases(draw):
     which = draw(st.integers(0, 2))
     base = gen.PROFILES["text" if which == 0 else "broad"]
     prof = dict(base, p_text_ref=0.6, p_table_list=0.1, p_hint=0.5, p_guidance=0.2, p_choice_label_ref=0.3, p_tag_names=0.12, p_default=0.3, p_osm=0.03,
-                p_extra_cols=0.5)
+                p_extra_cols=0.5, p_refs_only=0.06)
     g = gen.G(draw, prof)
     form = gen.build_form(draw, prof, g=g)
     if form.get("lists") and g.p("_", 0.12):
